@@ -232,3 +232,166 @@ func init() {
 		return o
 	}
 }
+
+// ---- ygot.Diff: model over the engine heap graph ----
+//
+// Diff(original, modified) yields a gNMI Notification whose Update list has one
+// element per leaf of `modified` that is absent from or different in `original`,
+// and whose Delete list has one element per leaf of `original` absent from
+// `modified`.  Only the list LENGTHS are faithful (elements are empty messages;
+// a list key that ygot reports under two paths is counted once).
+
+type ygLeaf struct {
+	path string // field path with concrete or symbolic map keys rendered positionally
+	keys []value
+	kt   []types.Type
+	val  value
+	t    types.Type
+}
+
+func (in *Interp) ygLeaves(t types.Type, v value, path string, keys []value, kts []types.Type, out *[]ygLeaf, depth int) {
+	if depth > 12 {
+		in.unsupported("ygot.Diff model: structure too deep")
+	}
+	switch u := t.Underlying().(type) {
+	case *types.Pointer:
+		p, ok := v.(*value)
+		if !ok || p == nil {
+			return
+		}
+		if _, isStruct := u.Elem().Underlying().(*types.Struct); isStruct {
+			in.ygLeaves(u.Elem(), *p, path, keys, kts, out, depth+1)
+			return
+		}
+		*out = append(*out, ygLeaf{path: path, keys: keys, kt: kts, val: *p, t: u.Elem()})
+	case *types.Struct:
+		s, ok := v.(structure)
+		if !ok {
+			return
+		}
+		for i := 0; i < u.NumFields(); i++ {
+			in.ygLeaves(u.Field(i).Type(), s[i], path+"/"+u.Field(i).Name(), keys, kts, out, depth+1)
+		}
+	case *types.Map:
+		m, ok := v.(*smap)
+		if !ok || m == nil {
+			return
+		}
+		for _, e := range m.entries {
+			in.ygLeaves(u.Elem(), e.val, path+"[]", append(append([]value{}, keys...), e.key), append(append([]types.Type{}, kts...), u.Key()), out, depth+1)
+		}
+	case *types.Slice:
+		s, ok := v.([]value)
+		if !ok || s == nil {
+			return
+		}
+		*out = append(*out, ygLeaf{path: path, keys: keys, kt: kts, val: s, t: t})
+	case *types.Interface:
+		i, ok := v.(iface)
+		if !ok || i.t == nil {
+			return
+		}
+		*out = append(*out, ygLeaf{path: path, keys: keys, kt: kts, val: i, t: t})
+	case *types.Basic:
+		// enumerations: the zero value means unset
+		if z, ok := in.equalsV(t, v, zero(t)).(bool); ok && z {
+			return
+		}
+		*out = append(*out, ygLeaf{path: path, keys: keys, kt: kts, val: v, t: t})
+	}
+}
+
+func (in *Interp) ygSameKeys(a, b ygLeaf) bool {
+	if a.path != b.path || len(a.keys) != len(b.keys) {
+		return false
+	}
+	for i := range a.keys {
+		c := in.equalsV(a.kt[i], a.keys[i], b.keys[i])
+		switch c := c.(type) {
+		case bool:
+			if !c {
+				return false
+			}
+		case *Sym:
+			if !in.decide(c.T) {
+				return false
+			}
+		}
+	}
+	return true
+}
+
+func init() {
+	externTable["github.com/openconfig/ygot/ygot.Diff"] = func(fr *frame, fn *ssa.Function, a []value) value {
+		in := fr.in
+		o, m := a[0].(iface), a[1].(iface)
+		var ol, ml []ygLeaf
+		if o.t != nil {
+			in.ygLeaves(o.t, o.v, "", nil, nil, &ol, 0)
+		}
+		if m.t != nil {
+			in.ygLeaves(m.t, m.v, "", nil, nil, &ml, 0)
+		}
+		nUpd, nDel := 0, 0
+		for _, x := range ml {
+			found := false
+			for _, y := range ol {
+				if in.ygSameKeys(x, y) {
+					found = true
+					eq := in.deepEqT(x.t, x.val, y.val, nil, 0)
+					same, isB := eq.(bool)
+					if !isB {
+						same = in.decide(eq.(*Sym).T)
+					}
+					if !same {
+						nUpd++
+					}
+					break
+				}
+			}
+			if !found {
+				nUpd++
+			}
+		}
+		for _, y := range ol {
+			found := false
+			for _, x := range ml {
+				if in.ygSameKeys(x, y) {
+					found = true
+					break
+				}
+			}
+			if !found {
+				nDel++
+			}
+		}
+		// build the *gnmi.Notification
+		var notif *types.Named
+		for _, p := range in.prog.AllPackages() {
+			if p.Pkg.Path() == "github.com/openconfig/gnmi/proto/gnmi" {
+				if t := p.Type("Notification"); t != nil {
+					notif = t.Type().(*types.Named)
+				}
+			}
+		}
+		if notif == nil {
+			in.unsupported("gnmi.Notification type not loaded")
+		}
+		st := notif.Underlying().(*types.Struct)
+		sv := zero(st).(structure)
+		mk := func(field string, n int) {
+			i := fieldIndex(st, field)
+			elemPtr := st.Field(i).Type().Underlying().(*types.Slice).Elem().Underlying().(*types.Pointer)
+			var xs []value
+			for k := 0; k < n; k++ {
+				var cell value = zero(elemPtr.Elem().Underlying())
+				xs = append(xs, &cell)
+			}
+			sv[i] = xs
+		}
+		mk("Update", nUpd)
+		mk("Delete", nDel)
+		var cell value = sv
+		return tuple{&cell, iface{}}
+	}
+}
